@@ -111,6 +111,12 @@ func parseContractFile(path string, pkgPath string) ([]*Contract, []string, erro
 			continue
 		}
 		lastClause = nil
+		if strings.HasPrefix(body, "const ") {
+			for _, n := range strings.Fields(strings.ReplaceAll(strings.TrimPrefix(body, "const "), ",", " ")) {
+				imports = append(imports, "const:"+n)
+			}
+			continue
+		}
 		if strings.HasPrefix(body, "import ") {
 			imports = append(imports, strings.TrimSpace(strings.TrimPrefix(body, "import ")))
 			continue
@@ -185,6 +191,13 @@ func parseContractFile(path string, pkgPath string) ([]*Contract, []string, erro
 			cs := caseSpec{param: strings.TrimSpace(p)}
 			for _, a := range strings.Split(alts, ",") {
 				if a = strings.TrimSpace(a); a != "" {
+					var lo, hi int
+					if n, _ := fmt.Sscanf(a, "%d..%d", &lo, &hi); n == 2 && hi >= lo && hi-lo < 512 {
+						for k := lo; k <= hi; k++ {
+							cs.alts = append(cs.alts, fmt.Sprint(k))
+						}
+						continue
+					}
 					cs.alts = append(cs.alts, a)
 				}
 			}
@@ -526,6 +539,13 @@ func freeLocals(pkg *packages.Package, expr string, scope *types.Scope, pos toke
 			return false
 		case *ast.Ident:
 			if bound[v.Name] || seen[v.Name] {
+				return true
+			}
+			if v.Name == "verifIdx" {
+				// pseudo variable: number of completed iterations of a range loop
+				seen[v.Name] = true
+				names = append(names, v.Name)
+				typs = append(typs, types.Typ[types.Int])
 				return true
 			}
 			_, obj := scope.LookupParent(v.Name, pos)
